@@ -192,6 +192,8 @@ func verifHeapRemove(i int) *tssItem { return heap.Remove(&tssQ, i).(*tssItem) }
 //@   noframe
 //@   requires conn != nil && log != nil && mtrcs != nil
 //@   requires slayers.LayerTypeSCIONUDP != slayers.LayerTypeSCMP
+//@   requires fetcher != nil ==> fetcher.VerifReady()
+//@   loop 0 invariant fetcher != nil ==> fetcher.VerifReady()
 //@   noerror buffer.Clear, payload.SerializeTo, scmpLayer.SerializeTo, scionLayer.SerializeTo, udpLayer.SerializeTo, e2eLayer.SerializeTo, e2eExtn.SerializeTo, spao.ComputeAuthCMAC, scion.DeriveHostHostKey
 //@   callsite ntp.DecodePacket 0 scope len(udpLayer.Payload) <= 48
 //@   loop 0 invariant capof(buf) == scion.MTU && capof(oob) == 64
